@@ -200,6 +200,61 @@ theorem lifecycle_retry_refused_witness :
      (storedLog d2.1 0).map rowKey == [(0, 1), (0, 2)]) = true := by
   decide
 
+
+/-! ### under repetition: any number of lost answers / resends (added) -/
+
+/-- the client resends the identical request `n` times (each answer lost or not – the store does not
+depend on whether the answer arrived) -/
+def resend (req : Request) : Nat → Server → Server
+  | 0, s => s
+  | n + 1, s => resend req n (step s req).1
+
+theorem resend_fixed (req : Request) (s : Server) (h : (step s req).1 = s) (n : Nat) : resend req n s = s := by
+  induction n with
+  | zero => rfl
+  | succ n ih => simp only [resend, h, ih]
+
+/-- ANY number of resends of an accepted sync (every answer but the last lost, say) leaves exactly the
+store of the single fault-free request, and every one of those answers is an acceptance carrying the
+checkpoint of the first: `response_loss_idempotent` holds under repetition, not just once. -/
+theorem response_loss_idempotent_repeated (s : Server) (c : ClientId) (d : DocId) (pack : Pack) (po nogc : Bool) (r : Resp)
+    (h : (step s (.pushpull c d pack po nogc)).2 = .ok r) (n : Nat) :
+    resend (.pushpull c d pack po nogc) (n + 1) s = (step s (.pushpull c d pack po nogc)).1 ∧
+    ∃ r', (step (resend (.pushpull c d pack po nogc) n s) (.pushpull c d pack po nogc)).2 = .ok r' ∧ r'.cp = r.cp := by
+  obtain ⟨hfix, r', hr', hcp⟩ := response_loss_idempotent s c d pack po nogc r h
+  refine ⟨?_, ?_⟩
+  · simp only [resend]; exact resend_fixed _ _ hfix n
+  · cases n with
+    | zero => exact ⟨r, h, rfl⟩
+    | succ m =>
+      simp only [resend]
+      rw [resend_fixed _ _ hfix m]
+      exact ⟨r', hr', hcp⟩
+
+/-- PARTIAL (outside the window, as `retry_idempotent_partial`): one fault followed by ANY positive number of
+retries of the identical request gives exactly the store of the fault-free request. -/
+theorem retry_idempotent_repeated_partial (s : Server) (c : ClientId) (d : DocId) (pack : Pack) (po nogc : Bool) (r : Resp)
+    (h : (step s (.pushpull c d pack po nogc)).2 = .ok r) (k : Fault) (hk : k.inWindow = false) (n : Nat) :
+    resend (.pushpull c d pack po nogc) (n + 1) (stepF (some k) s (.pushpull c d pack po nogc)).1 =
+      (step s (.pushpull c d pack po nogc)).1 := by
+  obtain ⟨hst, _⟩ := retry_idempotent_partial s c d pack po nogc r h k hk
+  obtain ⟨hfix, _⟩ := response_loss_idempotent s c d pack po nogc r h
+  simp only [resend]
+  rw [hst]
+  exact resend_fixed _ _ hfix n
+
+/-- … and so do TWO faults in a row outside the window followed by a retry, provided the second faulty
+attempt is itself made on a request the fault-free server would accept in the state the first fault
+left (true whenever the first fault fired before anything committed, or after everything did). -/
+theorem two_faults_then_retry_partial (s : Server) (c : ClientId) (d : DocId) (pack : Pack) (po nogc : Bool) (r₁ r₂ : Resp)
+    (k₁ k₂ : Fault) (hk₂ : k₂.inWindow = false)
+    (_h₁ : (step s (.pushpull c d pack po nogc)).2 = .ok r₁)
+    (h₂ : (step (stepF (some k₁) s (.pushpull c d pack po nogc)).1 (.pushpull c d pack po nogc)).2 = .ok r₂) :
+    (step (stepF (some k₂) (stepF (some k₁) s (.pushpull c d pack po nogc)).1 (.pushpull c d pack po nogc)).1
+        (.pushpull c d pack po nogc)).1 =
+      (step (stepF (some k₁) s (.pushpull c d pack po nogc)).1 (.pushpull c d pack po nogc)).1 :=
+  (retry_idempotent_partial _ c d pack po nogc r₂ h₂ k₂ hk₂).1
+
 /-! ### non-vacuity -/
 
 /-- an accepted sync with pushables exists, every fault class is inhabited, and outside the window fault +
